@@ -641,3 +641,25 @@ def same_expr(repo, fi: FuncInfo, stmt: ast.AST, value: ast.AST, expected_src: s
         if want.key() == got.key():
             return True
     return False
+
+
+def rows_in_view_alias(t: T) -> T:
+    """`self.nodes.index` (also `.to_numpy()` / `.values` of it) IS `self._nodes_in_view`, and `self.edges.index` is
+    `self._edges_in_view`: a view's tables are cut out of the base's with exactly these labels (View.__init__), and a module's lists
+    are read off its tables (_init_view).  Both spellings are rewritten to the list."""
+    def rec(x):
+        if x.op == "mcall" and x.name in ("to_numpy", "to_list", "tolist") and len(x.args) == 1:
+            inner = rec(x.args[0])
+            if inner.op == "attr" and inner.name in ("_nodes_in_view", "_edges_in_view"):
+                return inner
+        if x.op == "attr" and x.name == "values" and x.args:
+            inner = rec(x.args[0])
+            if inner.op == "attr" and inner.name in ("_nodes_in_view", "_edges_in_view"):
+                return inner
+        if x.op == "attr" and x.name == "index" and x.args and x.args[0].op == "attr" and x.args[0].name in ("nodes", "edges") and \
+                x.args[0].args and x.args[0].args[0].op == "param" and x.args[0].args[0].name == "self":
+            return T("attr", "_nodes_in_view" if x.args[0].name == "nodes" else "_edges_in_view", [x.args[0].args[0]], node=x.node)
+        if not x.args and not x.kw:
+            return x
+        return T(x.op, x.name, [rec(a) for a in x.args], {k: rec(v) for k, v in x.kw.items()}, x.node)
+    return rec(t)
